@@ -568,6 +568,8 @@ static void c14_tune(sim_knobs *k, unsigned cfg, uint64_t *g) {
 	if (cfg & CFG_FAULTY) {
 		k->iofault_den = (g[0] & 1) ? 4 : 10;
 		k->iofault_mask = (1u << IOF_SHORT) | (1u << IOF_EINTR) | (1u << IOF_EAGAIN);
+		// hard errors in a third of the faulty runs (the judge then only demands: never wrong data, every operation completes)
+		if ((g[0] >> 4) % 3 == 0) k->iofault_mask |= (1u << IOF_EIO) | (1u << IOF_ENOSPC) | (1u << IOF_EPIPE);
 	}
 }
 static const char *const c14_names[] = { "operations", "bytes_delivered_or_unwritten", "intercepted_io_calls", "runs_with_stop", "file_channel_runs", "convenience_api_runs", "derived_channel_runs", NULL };
